@@ -194,14 +194,14 @@ def cyclic(n, edges):
     return any(dfs(u) for u in range(n) if u not in colour)
 
 
-def judge_graph(st, label, doc, extra, expect_cycle, rank):
+def judge_graph(st, label, doc, extra, expect_cycle, rank, budget=None):
     st.add("states")
     st.add("transitions")
     st.add("evaluations")
     st.add("nontrivial")
     case = {"graph": label, "document": doc, "extra": extra}
     try:
-        text = impl.with_budget(lambda: docs.generate(copy.deepcopy(doc), copy.deepcopy(extra)), BUDGET)
+        text = impl.with_budget(lambda: docs.generate(copy.deepcopy(doc), copy.deepcopy(extra)), budget or BUDGET)
         got = "RETURNED"
     except impl.Budget:
         got, text = "TIMEOUT", None
@@ -250,6 +250,16 @@ def ring_cases(st):
             defs2["d%d" % (length - 1)] = ref_node(kind, [], "D%d" % (length - 1))
             doc2 = {**ref_node("properties", ["#/definitions/d0"], "Root"), "definitions": defs2}
             judge_graph(st, "chain length %d kind %s" % (length, kind), doc2, None, False, rank=length)
+    # long rings: the cycle is only closed after hundreds of hops (deeper than the reference resolver's own recursion)
+    for length in (40, 120, 260, 400, 700):
+        for kind in ("properties", "items"):
+            defs = {"d%d" % i: ref_node(kind, ["#/definitions/d%d" % ((i + 1) % length)], "D%d" % i) for i in range(length)}
+            doc = {**ref_node("properties", ["#/definitions/d0"], "Root"), "definitions": defs}
+            judge_graph(st, "ring length %d kind %s" % (length, kind), doc, None, True, rank=length, budget=BUDGET * length)
+    for length in (40, 100):
+        defs = {"d%d" % i: ref_node("properties", ["#/definitions/d%d" % (i + 1)] if i + 1 < length else [], "D%d" % i) for i in range(length)}
+        doc = {**ref_node("properties", ["#/definitions/d0"], "Root"), "definitions": defs}
+        judge_graph(st, "chain length %d kind properties" % length, doc, None, False, rank=length, budget=BUDGET * length)
     # cycles that run through a literal keyword (json_ref_dict resolves $ref inside default / const / enum as well)
     judge_graph(st, "literal cycle: default -> root", {"type": "object", "title": "Root", "properties": {"p": {"type": "object", "title": "P", "default": {"$ref": "#"}}}}, None, True, 1)
     judge_graph(st, "literal cycle: const <-> enum between definitions", {"type": "object", "title": "Root", "properties": {"a": {"$ref": "#/definitions/a"}}, "definitions": {"a": {"const": {"x": {"$ref": "#/definitions/b"}}}, "b": {"enum": [{"$ref": "#/definitions/a"}, 1]}}}, None, True, 2)
